@@ -319,6 +319,14 @@ pub fn random_option_string(rng: &mut Rng) -> String {
     const S: &[&str] = &[
         "", "Serialize, Deserialize", "Debug", "Debug, Clone, PartialEq", " ", "\"", "\n", "Привет", ")]\n#[x(", "@", "$text", "$value",
         "text", "attr_", "xmlns:", "\\", "{}", "{", "}", "a b", "\0", "🦀",
+        "serde::Serialize, serde::Deserialize", "Clone, serde::Deserialize", "::std::fmt::Debug", "PartialEq, Eq, Hash, Default",
     ];
-    rng.pick(S).to_string()
+    let base = rng.pick(S).to_string();
+    match rng.below(12) {
+        // long values: one very long item, or a long list
+        0 => format!("{}{}", "VeryLongQualifiedPathSegment::".repeat(rng.range(3, 12)), "Trait"),
+        1 => (0..rng.range(20, 60)).map(|i| format!("T{i}")).collect::<Vec<_>>().join(", "),
+        2 => base.repeat(rng.range(2, 40)),
+        _ => base,
+    }
 }
